@@ -62,18 +62,18 @@ def execute(case):
 
     kind = case["kind"]
     comp = UniformComposite() if kind == "uniform" else WeightedComposite(weight={"wsupply": "supply", "wutil": "utilisation", "walloc": "allocation"}[kind])
-    children = comp.children  # the composite's own list; add/remove mutate it in place or replace it
+    mine = []  # the children THIS case gave to the composite, in order
     events = []
     n = 0
     for op in case["ops"]:
         e = op["e"]
         if e == "Write":
             comp.demand = op["D"] if n % 2 == 0 else float(op["D"])
-            events.append({"e": "Write", "D": op["D"], "cd": [scaled(c.demand, L) for c in comp.children]})
+            events.append({"e": "Write", "D": op["D"], "cd": [scaled(c.demand, L) for c in mine], "nchildren": len(comp.children)})
         elif e == "Read":
-            events.append({"e": "Read", "demand": scaled(comp.demand, 1), "supply": scaled(comp.supply, 1), "u": scaled(comp.utilisation, 4 * L), "a": scaled(comp.allocation, 4 * L)})
+            events.append({"e": "Read", "demand": scaled(comp.demand, 1), "supply": scaled(comp.supply, 1), "u": scaled(comp.utilisation, 4 * L), "a": scaled(comp.allocation, 4 * L), "nchildren": len(comp.children)})
         elif e == "SetChild":
-            c = comp.children[op["i"] - 1]
+            c = mine[op["i"] - 1]
             if op["attr"] == "s":
                 c._supply = op["v"] if n % 3 else float(op["v"])
             elif op["attr"] == "u":
@@ -84,16 +84,18 @@ def execute(case):
         elif e == "AddChild":
             c = op["c"]
             pool = RecPool(supply=c["s"], demand=0, utilisation=c["u"] / 4, allocation=c["a"] / 4, name="c%d" % n)
+            mine.append(pool)
             if n % 2:
                 comp.children.append(pool)
             else:
                 comp.children = comp.children + [pool]
             events.append({"e": "AddChild", "c": {"s": c["s"], "u": c["u"], "a": c["a"], "d": 0}})
         elif e == "Remove":
+            gone = mine.pop(op["i"] - 1)
             if n % 2:
-                del comp.children[op["i"] - 1]
+                comp.children.remove(gone)
             else:
-                comp.children = [c for j, c in enumerate(comp.children) if j != op["i"] - 1]
+                comp.children = [c for c in comp.children if c is not gone]
             events.append(dict(op))
         n += 1
     return {"kind": kind, "events": events}
